@@ -43,6 +43,13 @@ THEOREMS = [
     "Obligations.exit_wait_for_queues_default", "Obligations.exit_worker_structure", "Obligations.exit_drain_structure",
     "Obligations.exit_start_stop_structure", "Obligations.exit_handler_installation", "Obligations.C07_signal_extracted",
     "Obligations.C07_restart_extracted", "Obligations.C07_program_extracted",
+    # wait_for_queues_to_empty_before_exit as a parameter; a handled signal while another thread is inside stop()
+    "Exit.C07_signal_independent_of_wait_option", "Exit.C07_neg_graceful_exit_without_flush", "Exit.C07_nowait_stop_keeps_state",
+    "Exit.C07_nowait_stop_may_leave_unwritten", "Exit.C07_nowait_program_conservation", "Exit.C07_nowait_exit",
+    "Exit.C07_stop_id_set_until_backend_gone", "Exit.C07_stop_interleaving_conservation", "Exit.C07_signal_during_stop_served",
+    "Exit.C07_signal_during_stop_after_last_look_hangs", "Exit.C07_signal_during_stop_exact",
+    "Exit.C07_window_keeps_earlier_statements", "Exit.C07_F26_signal_after_last_look", "Exit.C07_neg_id_cleared_before_stop",
+    "Obligations.exit_stop_sequence", "Obligations.C07_signal_during_stop_extracted",
 ]
 MODULES = ["QuillModel.Props.C07"]
 OBLIG = ["QuillModel.Obligations.Exit"]
@@ -53,6 +60,22 @@ SIGNALS = ["SIGSEGV", "SIGABRT", "SIGFPE", "SIGILL", "SIGINT", "SIGTERM"]
 FAULT = {"SIGSEGV": "fault", "SIGFPE": "fault", "SIGILL": "fault", "SIGABRT": "abort"}
 THREADS = ["-", "f3", "a3", "f2;a2", "f3;f1;a2", "a2;a2;f4", "c4000", "f2;c3000"]
 BUSY = "L1500"
+CRASH = ["SIGSEGV", "SIGABRT", "SIGFPE", "SIGILL"]
+F26_TEXT = ("a handled signal on a frontend thread while another thread is inside Backend::stop() (or the atexit stop), after the "
+            "backend thread's last look at the queues in _exit() and before stop() has cleared the id the handler reads: the handler "
+            "logs and waits in flush_log() for a backend thread that never looks again — the process hangs, the notice is lost "
+            "(with wait_for_queues_to_empty_before_exit off also the thread's statements still queued at the stop request)")
+
+
+def is_f26_class(spec):
+    """input class of F26: a signal timed inside another thread's stop *after* the backend's last look at the queues
+    (held there by the gate of `Gs`; with the option off the last look is the stop request itself)"""
+    m = re.search(r"script=(\S+)", spec or "")
+    if not m:
+        return False
+    ops = m.group(1).split(",")
+    inside = any(o.startswith("tstop:") or o.startswith("tsigx:") for o in ops)
+    return inside and ("Gs" in ops or " wait=0 " in spec)
 
 
 def drain_bundle():
@@ -79,9 +102,9 @@ def life_args(ex):
 # case generation
 # ----------------------------------------------------------------------------------------------------
 
-def case_line(cid, script, clock="sys", lvl="info", logger=1, reraise=1, timeout=120, limit=100, threads="-"):
-    return "case %s clock=%s lvl=%s logger=%d reraise=%d timeout=%d limit=%d threads=%s script=%s" % (
-        cid, clock, lvl, logger, reraise, timeout, limit, threads, ",".join(script))
+def case_line(cid, script, clock="sys", lvl="info", logger=1, reraise=1, timeout=120, limit=100, threads="-", wait=1):
+    return "case %s clock=%s lvl=%s logger=%d reraise=%d%s timeout=%d limit=%d threads=%s script=%s" % (
+        cid, clock, lvl, logger, reraise, "" if wait else " wait=0", timeout, limit, threads, ",".join(script))
 
 
 def crash_point_cases(prefix, n_stmts, thread_cfgs, rng, every_cfg):
@@ -112,7 +135,36 @@ def crash_point_cases(prefix, n_stmts, thread_cfgs, rng, every_cfg):
                             sc += ["L%d" % rest, "ret" if k % 2 else "exit"]
                         else:
                             sc += [act]
-                        out.append(case_line("%s%d" % (prefix, k), sc, clock=clock, threads=th))
+                        # the signal half does not depend on wait_for_queues_to_empty_before_exit: half of the signal cases run with it off
+                        out.append(case_line("%s%d" % (prefix, k), sc, clock=clock, threads=th, wait=0 if is_sig and rng.random() < 0.5 else 1))
+    return out
+
+
+def stop_window_cases(prefix, rng, full):
+    """signals timed with the gate sink of H4. (1) statements provably still queued (the backend is held inside a
+    write_log) when the signal arrives, option on and off, all six signals; (2) a crash signal while another thread is
+    inside Backend::stop() / the process inside the atexit stop and the backend, held in mid-write, still has to drain:
+    main raises while a thread stops, a thread raises while main stops / exits / returns. (The points after the backend's
+    last look at the queues are finding F26: corpus/C07/f26_*.txt.)"""
+    out = []
+    k = 0
+    ps = [0, 1, 3, 6] if full else [0, 3]
+    qs = [1, 2, 5] if full else [2]
+    for p in ps:
+        for q in qs:
+            for s in SIGNALS:
+                for wait in (1, 0):
+                    k += 1
+                    sc = ["H", "L%d" % p, "F", "Gw", "L%d" % q, "Bw", "sig:%s:raise" % s]
+                    out.append(case_line("%s%d" % (prefix, k), sc, clock="tsc" if k % 3 == 0 else "sys", wait=wait,
+                                         threads="a2" if s in CRASH and k % 2 else "-"))
+            for s in CRASH:
+                for form in ("tstop", "X", "exit", "ret"):
+                    k += 1
+                    sc = ["H", "L%d" % p, "W", "F", "Gw", "L%d" % q, "Bw"]
+                    sc += ["tstop:1", "sig:%s:raise" % s] if form == "tstop" else ["tsigx:1:%s" % s, form]
+                    out.append(case_line("%s%d" % (prefix, k), sc, clock="tsc" if k % 3 == 0 else "sys",
+                                         threads=rng.choice(["a2", "a1;f2", "a3;a1"])))
     return out
 
 
@@ -129,7 +181,7 @@ def thread_signal_cases(prefix, n_stmts, rng, full):
                     for th in cfgs:
                         k += 1
                         sc = ["H", "L%d" % p, "W"] + ([BUSY] if busy else ["F", "Z3"]) + ["tsig:1:%s" % s]
-                        out.append(case_line("%s%d" % (prefix, k), sc, clock=clock, threads=th))
+                        out.append(case_line("%s%d" % (prefix, k), sc, clock=clock, threads=th, wait=0 if rng.random() < 0.5 else 1))
     for i in range(len(SIGNALS) * (5 if full else 2)):
         st = SIGNALS[i % len(SIGNALS)]
         sm = SIGNALS[(i + 1 + i // len(SIGNALS)) % len(SIGNALS)]
@@ -184,7 +236,8 @@ def lifecycle_cases(prefix, n, rng):
             sc += ["sig:%s:raise" % rng.choice(SIGNALS)]      # after a stop, or in a cycle started without the handler
         else:
             sc += [rng.choice(["ret", "exit"])]
-        out.append(case_line("%s%d" % (prefix, i), sc, clock=rng.choice(["sys", "tsc"]), threads=rng.choice(THREADS)))
+        out.append(case_line("%s%d" % (prefix, i), sc, clock=rng.choice(["sys", "tsc"]), threads=rng.choice(THREADS),
+                             wait=0 if rng.random() < 0.25 else 1))
     return out
 
 
@@ -223,10 +276,12 @@ def gen_cases(tier, seed, after_stop_limit):
     if tier == "quick":
         cases += crash_point_cases("p", 4, THREADS, rng, every_cfg=True)
         cases += thread_signal_cases("t", 4, rng, full=False)
+        cases += stop_window_cases("w", rng, full=False)
         cases += lifecycle_cases("l", 200, rng)
     else:
         cases += crash_point_cases("p", 8, THREADS, rng, every_cfg=True)
         cases += thread_signal_cases("t", 8, rng, full=True)
+        cases += stop_window_cases("w", rng, full=True)
         cases += lifecycle_cases("l", 4000, rng)
     return cases
 
@@ -350,7 +405,8 @@ def run(prop, tier):
     after_stop_limit = 100 if pargs[1] == "1" else 8
     scratch = tempfile.mkdtemp(prefix="h4_exit_", dir="/tmp")
     state = dict(cases=0, traces=0, oracle=[], mismatches=[], aborts=[], classes={}, statuses={}, nontrivial=set(), samples=[],
-                 done=[], stats=[], stmts=0, unspecified=0, two_entrants={}, flaky=[], not_rerun=[])
+                 done=[], stats=[], stmts=0, unspecified=0, two_entrants={}, flaky=[], not_rerun=[], f26=[], f26_cases=set(),
+                 f26_run=0, wait_off=0, inside_stop=0)
 
     def process(res):
         by_id, tr = {}, {}
@@ -358,6 +414,10 @@ def run(prop, tier):
             if ln.startswith("case "):
                 by_id[case_id(ln)] = ln
                 state["cases"] += 1
+                spec0 = ln.split(" => ")[0]
+                state["wait_off"] += 1 if " wait=0 " in spec0 else 0
+                state["inside_stop"] += 1 if ("tstop:" in spec0 or "tsigx:" in spec0) else 0
+                state["f26_run"] += 1 if is_f26_class(spec0) else 0
                 m = re.search(r"status=(\S+)", ln)
                 if m:
                     state["statuses"][m.group(1)] = state["statuses"].get(m.group(1), 0) + 1
@@ -381,7 +441,12 @@ def run(prop, tier):
         for ln in res["out"].split("\n"):
             if ln.startswith("ORACLE "):
                 m = re.search(r"case=(\S+)", ln)
-                state["oracle"].append((res["label"], ln, by_id.get(m.group(1)) if m else None, errs.get(m.group(1)) if m else None))
+                hit = (res["label"], ln, by_id.get(m.group(1)) if m else None, errs.get(m.group(1)) if m else None)
+                if "F26" in known and is_f26_class((hit[2] or "").split(" => ")[0]):
+                    state["f26"].append(hit)          # listed finding, recognised by its input class
+                    state["f26_cases"].add(hit[2])
+                else:
+                    state["oracle"].append(hit)
         if res["rc"] not in (0, 3):
             state["aborts"].append((res["label"], "harness h4_exit ended with rc=%d: %s" % (res["rc"], res["out"][-300:]), None))
         for ln in res["dout"].split("\n"):
@@ -495,8 +560,16 @@ def run(prop, tier):
         if state["flaky"]:
             ck.notes.append("%d case(s) ended differently from the expectation in the parallel run but did not do so in %d re-runs on their own: "
                             "recorded under coverage.flaky_cases, not a violation" % (len(state["flaky"]), RERUNS))
+        if state["f26"]:
+            kinds = sorted({hit_kind(h[1]) for h in state["f26"]})
+            ck.known("F26 reproduces in %d of %d cases of its input class (%s), e.g. %s | %s; replay=corpus/C07/f26_signal_inside_stop_after_last_look.txt" % (
+                len(state["f26_cases"]), state["f26_run"], ", ".join(kinds), state["f26"][0][1][:160],
+                known["F26"].get("line", F26_TEXT)[:300]))
+        elif "F26" in known:
+            ck.notes.append("listed finding F26 did not reproduce in this run (%d cases of its input class ran)" % state["f26_run"])
         for fid in sorted(known):
-            ck.notes.append("listed finding %s is not reproduced by a dedicated class in this check" % fid)
+            if fid != "F26":
+                ck.notes.append("listed finding %s is not reproduced by a dedicated class in this check" % fid)
 
         ck.cov.update({
             "evaluations": state["cases"],
@@ -507,6 +580,9 @@ def run(prop, tier):
                     "queued at the action (1500-statement burst right before it), or other logging threads existed, or the programme had at least "
                     "two stop() calls; distinct = distinct case specifications (SHA-1 of the spec without its id)",
             "cases_by_model_class": state["classes"],
+            "cases_with_wait_for_queues_to_empty_before_exit_off": state["wait_off"],
+            "cases_with_a_signal_inside_another_threads_stop_or_the_atexit_stop": state["inside_stop"],
+            "cases_of_the_input_class_of_F26": state["f26_run"],
             "wait_statuses": state["statuses"],
             "two_threads_raising_at_once (which entered first)": state["two_entrants"],
             "samples": state["samples"],
